@@ -150,6 +150,7 @@ def replay(scn, ui, python, cse=True, presentation=None, force_ekf=False):
     calenv = {c: fl(d.calmap[c]) for c in d.calib}
     est = None
     kept = []        # results handed out earlier must not change when the model is used again
+    kept_h = []
     asym = bool(resolve_presentation(presentation, d).get("variety"))
     lay = scn.get("layout")
     if lay:
@@ -234,6 +235,7 @@ def replay(scn, ui, python, cse=True, presentation=None, force_ekf=False):
                 res.trace.append({"h": oh, "H": oH})
                 Ht = named(st.get("Ht")) or None
                 res.values += cmp_vec(res.mismatches, "h", i, oh, st["h"], d.sensors[key], env)
+                kept_h.append((i, h, st, key, env))
                 res.values += cmp_mat(res.mismatches, "H", i, oH, st["H"], Ht, env)
             elif act == "SetEstimate":
                 x = {n: fl(q) for n, q in named(st["x"]).items()}
@@ -312,8 +314,9 @@ def replay(scn, ui, python, cse=True, presentation=None, force_ekf=False):
                                            observed=repr(e)[:500], tb=traceback.format_exc()[-1500:]))
             return res
     for i, out, st, env in kept:
-        before = len(res.mismatches)
         cmp_vec(res.mismatches, "xn-reread-at-end", i, proj_vec(out), st["xn"], d.update, env)
+    for i, h, st, key, env in kept_h:
+        cmp_vec(res.mismatches, "h-reread-at-end", i, proj_vec(h), st["h"], d.sensors[key], env)
     return res
 
 
